@@ -119,7 +119,9 @@ func cmdCheck(args []string) int {
 		r := verifyUnit(l, p, k)
 		results = append(results, r)
 		if r.Err == "" {
+			qfCandidates = false // first pass: an undecided query is retried with a larger budget before a weaker query is tried
 			discharge(r.Obls, outDir, secs, 6)
+			qfCandidates = true
 			// a solver timeout is not a verdict: retry undecided obligations once with three times the budget
 			var again []*Obl
 			for _, o := range r.Obls {
@@ -178,7 +180,7 @@ func cmdCheck(args []string) int {
 			case o.Status == "failed" && rr.Confirmed:
 				fmt.Printf("VIOLATION property=%s replay=%s obligation=%s\n", id, rp, o.Name)
 				violations++
-			case o.Status == "failed":
+			case o.Status == "failed" && !o.Candidate:
 				fmt.Printf("VIOLATION property=%s replay=%s obligation=%s no-failing-input-found\n", id, rp, o.Name)
 				violations++
 			case baseline[o.Name]:
